@@ -8,15 +8,16 @@ KINDS = ["euler", "tauleap", "gillespie"]
 
 # three tiny configurations that complete within 2-4 steps (lifecycle exploration)
 LC_CFGS = {
-    "A": dict(system="decay", dt=1.0, ts=[0, 1.5], policy="on_t_sample", seed=11),
+    # (A: requested times, hence the default t_max, in a foreign unit; C: explicit t_max and step in foreign units)
+    "A": dict(system="decay", dt=1.0, ts=[0, 1500.0], ts_unit="ms", policy="on_t_sample", seed=11),
     "B": dict(system="birth", dt=0.5, ts=[1.0], policy="on_interval", interval=0.75, seed=12),
-    "C": dict(system="rev", dt=0.25, ts=[0.3], tmax=0.6, policy="on_iteration", seed=13),
+    "C": dict(system="rev", dt="250 ms", ts=[0.3], tmax="0.01 min", policy="on_iteration", seed=13),
 }
 # gillespie needs event-scale horizons: few events before t_max
 LC_CFGS_G = {
-    "A": dict(system="decay", dt=1.0, ts=[0, 0.02], policy="on_t_sample", seed=11),
+    "A": dict(system="decay", dt=1.0, ts=[0, 20.0], ts_unit="ms", policy="on_t_sample", seed=11),
     "B": dict(system="birth", dt=0.5, ts=[0.3], policy="on_interval", interval=0.1, seed=12),
-    "C": dict(system="rev", dt=0.25, ts=[0.01], tmax=0.03, policy="on_iteration", seed=13),
+    "C": dict(system="rev", dt=0.25, ts=[0.01], tmax="30 ms", policy="on_iteration", seed=13),
 }
 
 ALPHABET1 = [("setup", "A"), ("setup", "B"), ("setup", "C"), ("iterate",), ("iterate_n", 2), ("iterate_n", 0), ("run", 0),
